@@ -203,6 +203,16 @@ func (c *Ctx) stackEffect(fn *ssa.Function, bind map[string]int64, stackRe strin
 			if k, ok := bind[x.Name()]; ok {
 				return k, true
 			}
+		case *ssa.Call:
+			// len/cap of a slice made with a known length (a range loop over it runs that many times)
+			if bi, ok := x.Call.Value.(*ssa.Builtin); ok && (bi.Name() == "len" || bi.Name() == "cap") && len(x.Call.Args) == 1 {
+				if ms, ok := x.Call.Args[0].(*ssa.MakeSlice); ok {
+					if bi.Name() == "len" {
+						return eval(ms.Len, env)
+					}
+					return eval(ms.Cap, env)
+				}
+			}
 		case *ssa.BinOp:
 			a, ok1 := eval(x.X, env)
 			b, ok2 := eval(x.Y, env)
